@@ -59,6 +59,8 @@ let run_case (fuel : nat) (c : Sexp.t) : (string * Sexp.t * Sexp.t option) optio
   | L [A "op-subgoal"; A idx; g] ->
     model_only (match op_get_subgoal (goal_of g) (nat_of_int (int_of_string idx)) with
         | Ok (Some x) -> L [A "ok"; sexp_of_goal x] | Ok None -> A "not-an-operator" | Panic -> A "panic" | OutOfFuel -> A "fuel")
+  | L [A "format-kb"; kbx] -> model_only (sexp_of_res sexp_of_str (format_kb (Ops_solve.kb_of kbx)))
+  | L [A "format-ss"; ss] -> model_only (L [A "ok"; sexp_of_str (format_ss (ss_of ss))])
   | L [A "replace"; t; ss] ->
     model_only (sexp_of_res sexp_of_term (replace_variables fuel (term_of t) (ss_of ss)))
   | L [A "bip"; A name; ts; ss] ->
